@@ -15,6 +15,12 @@ for mp in sorted(glob.glob(os.path.join(VERIF, "seeded", "*", "meta.json"))):
     mid = m["id"]
     if want and mid not in want:
         continue
+    if m.get("neutralised_by"):
+        # a later repair of /repo made the change harmless for its property (see meta.json): nothing to catch any more
+        status[mid] = dict(result="neutralised", by=m["neutralised_by"], head=head)
+        print(mid, "neutralised by", m["neutralised_by"], flush=True)
+        json.dump(status, open(status_path, "w"), indent=1, sort_keys=True)
+        continue
     det = m.get("detected_by", {})
     mm = re.search(r"bin/check (C\d\d)", det.get("check", ""))
     if not mm:
